@@ -441,11 +441,12 @@ func (sc *verifC38Scenario) startFSM(within int64) {
 		return
 	}
 	go func() {
-		// one pause before every remaining entry, together exactly `within`
+		// one pause before every remaining entry, together exactly `within` (histories of 3 and
+		// more entries: a single stall of `within` before the first remaining entry)
 		left := within
 		for sc.nextFSM < sc.n {
 			d := left
-			if sc.nextFSM < sc.n-1 {
+			if sc.nextFSM < sc.n-1 && sc.n <= 2 {
 				d = verifI64(verifName("fsmPause", sc.nextFSM))
 				verifAssume(d >= 0)
 				verifAssume(d <= left)
